@@ -399,7 +399,7 @@ Definition default_dev (pe : peer) (a : faddr) : faddr :=
   {| fa_dev := match fa_dev a with Some d => Some d | None => p_addr pe end;
      fa_ent := fa_ent a; fa_feat := fa_feat a |}.
 
-(* SubscriptionManager.RemoveSubscription *)
+(* SubscriptionManager.RemoveSubscription (entries of the calling connection only: fix c14f34e) *)
 Definition remove_subscription (s : st) (pe : peer) (c : reg_call) : st * bool :=
   let ca := default_dev pe (rc_cli c) in
   match remote_feature pe (rc_cli c) with
@@ -408,7 +408,7 @@ Definition remove_subscription (s : st) (pe : peer) (c : reg_call) : st * bool :
       match local_feature s (rc_srv c) with
       | None => (s, true)
       | Some sf =>
-          let keep := filter (fun x => negb (eqb_faddr (e_cli x) ca && same_srv x sf)) (subs s) in
+          let keep := filter (fun x => negb (N.eqb (e_ski x) (p_ski pe) && eqb_faddr (e_cli x) ca && same_srv x sf)) (subs s) in
           if Nat.eqb (length keep) (length (subs s)) then (s, true)
           else (set_subs s keep, false)
       end
@@ -438,7 +438,7 @@ Definition add_binding (s : st) (pe : peer) (c : reg_call) : st * bool :=
       end
   end.
 
-(* BindingManager.RemoveBinding (as repaired by dfbb605) *)
+(* BindingManager.RemoveBinding (as repaired by dfbb605 and c14f34e: entries of the calling connection only) *)
 Definition remove_binding (s : st) (pe : peer) (c : reg_call) : st * bool :=
   let ca := default_dev pe (rc_cli c) in
   match remote_feature pe (rc_cli c) with
@@ -449,7 +449,7 @@ Definition remove_binding (s : st) (pe : peer) (c : reg_call) : st * bool :=
       | Some sf =>
           if negb (role_type_ok (lf_role sf) (lf_type sf) RServer (lf_type sf)) then (s, true) else
           if negb (has_binding s sf (rf_addr en rf)) then (s, true) else
-          let keep := filter (fun x => negb (eqb_faddr (e_cli x) ca && same_srv x sf)) (binds s) in
+          let keep := filter (fun x => negb (N.eqb (e_ski x) (p_ski pe) && eqb_faddr (e_cli x) ca && same_srv x sf)) (binds s) in
           if Nat.eqb (length keep) (length (binds s)) then (s, true)
           else (set_binds s keep, false)
       end
